@@ -30,7 +30,8 @@ Descs == IF Level >= 2 THEN {[i \in 1..5 |-> 64 + i], [i \in 1..17 |-> 64 + i]} 
 Inp(cv, rs, ik, en, ds, cs, rk, ikc) ==
   [curve |-> cv, nkeys |-> rs[1], used |-> rs[2], isk |-> ik[1], iskCurve |-> cv, udLen |-> ik[2], udSha |-> "u",
    constraints |-> <<0, 5>>, pckBits |-> en[2], rights |-> en[3], enc |-> en[1], nxp |-> FALSE, flags |-> B, fw |-> A,
-   ts |-> <<1, 2, 3, 4>>, desc |-> ds, cmds |-> cs, waive |-> <<>>, rk |-> rk, ik |-> ikc]
+   ts |-> <<1, 2, 3, 4>>, desc |-> ds, cmds |-> cs, waive |-> <<>>, rk |-> rk, ik |-> ikc,
+   given |-> Requested(en[1], en[2], en[3], ik[1])]
 AllFull(n) == [i \in 1..n |-> "full"] \o <<>>
 \* value classes of the keys: one key of the set has a short coordinate (the used one / another one; level 2: any position)
 OneShort(n, p, c) == [i \in 1..n |-> IF i = p THEN c ELSE "full"] \o <<>>
@@ -41,9 +42,15 @@ IskKeys == {<<<<FALSE, 0>>, "full">>} \cup {<<<<TRUE, 4>>, c>> : c \in KeyClasse
 LongDesc == [i \in 1..17 |-> 64 + i]
 KeyInputs == UNION {{Inp(cv, rs, ik[1], <<TRUE, 256, 3>>, LongDesc, <<Cm(3, A, Z, Z, Z, Z, 0)>>, rk, ik[2])
                      : cv \in {32, 48}, ik \in IskKeys, rk \in KeyVecs(rs)} : rs \in RootSets}
+\* supplied next to the request (Sb31Format!Givens): plain containers with every combination of part-common key / access rights /
+\* ISK material supplied as well, encrypted containers without ISK with the ISK material supplied
+GivenBase == {Inp(cv, <<1, 0>>, ik, en, LongDesc, <<Cm(2, A, Z, Z, Z, Z, 209)>>, AllFull(1), "full")
+              : cv \in {32, 48}, ik \in {<<FALSE, 0>>, <<TRUE, 4>>}, en \in {<<FALSE, 128, 0>>, <<TRUE, 256, 3>>}}
+GivenInputs == UNION {{[c EXCEPT !.given = g] : g \in Givens(c.enc, c.pckBits, c.rights, c.isk)}
+                      : c \in {x \in GivenBase : Level >= 2 \/ ~x.isk \/ (x.curve = 48 /\ ~x.enc)}}
 Inputs == {Inp(cv, rs, ik, en, ds, cs, AllFull(rs[1]), "full")
            : cv \in {32, 48}, rs \in RootSets, ik \in Isks, en \in Encs, ds \in Descs, cs \in CmdSeqs}
-          \cup KeyInputs
+          \cup KeyInputs \cup GivenInputs
 
 Init == \E c \in Inputs : \E m \in Mistakes \cup {"none"} : RInit(c) /\ evs = <<>> /\ k = 0 /\ mut = m /\ clean = FALSE
 \* the file is built (by a worker, not by the single-threaded enumeration of initial states)
@@ -72,7 +79,19 @@ Next == Build \/ DoParseHeader \/ DoHeaderFields \/ DoLayout \/ DoCertHeader \/ 
         \/ DoDeriveKdk \/ DoBlock \/ DoSection \/ DoCmd \/ DoAccept \/ GiveUp \/ Done
 \* every mistake of the menu changes something for at least one input (else it would be modelled as a no-op)
 Rich == {c \in Inputs : c.enc /\ c.isk /\ c.rights = 3 /\ c.nkeys = 4 /\ Len(c.desc) = 17}
-ASSUME \A m \in Mistakes : \E c \in Rich : Events(c, m) # Events(c, "none")
+ASSUME \A m \in Mistakes : \E c \in Rich \cup GivenInputs : Events(c, m) # Events(c, "none")
+\* the documented construction does not depend on what is supplied but not requested: the events of a container are those of the
+\* same request with nothing else supplied
+ASSUME \A c \in GivenInputs : Events(c, "none") = Events([c EXCEPT !.given = Requested(c.enc, c.pckBits, c.rights, c.isk)], "none")
+\* the mistakes of taking a decision from what is SUPPLIED are effective exactly where something is supplied that is not requested:
+\* plain container + part-common key and access rights / + part-common key; no ISK requested + ISK material
+ASSUME \A c \in Inputs :
+         /\ (Events(c, "encrypts_when_key_material_supplied") # Events(c, "none")) <=> (~c.enc /\ KeyMaterial(c.given))
+         /\ (Events(c, "encrypts_when_pck_supplied") # Events(c, "none")) <=> (~c.enc /\ c.given.pck # 0)
+         /\ (Events(c, "isk_certificate_when_supplied") # Events(c, "none")) <=> (~c.isk /\ c.given.isk)
+\* ... and the case space holds every such combination (non-vacuity of the three lines above)
+ASSUME \A cv \in {32, 48}, p \in GivenPcks, r \in GivenRights, i \in BOOLEAN :
+         \E c \in GivenInputs : c.curve = cv /\ ~c.enc /\ ~c.isk /\ c.given = [pck |-> p, rights |-> r, isk |-> i]
 \* the key-class mistake is effective exactly on root sets of more than one key that hold a key with a short coordinate
 ASSUME \A c \in Inputs : (Events(c, "root_key_hash_over_minimal_numbers") # Events(c, "none"))
                            <=> (c.nkeys > 1 /\ \E i \in 1..c.nkeys : c.rk[i] \in ShortClasses)
